@@ -72,6 +72,14 @@ CHECKS = {
         'real check_response over option grids with re.fullmatch verdicts supplied to the model.',
    note=PROOF_NOTE + ' The regex engine and full Unicode lower-casing are outside the model (parameters; ASCII+Latin-1 executable instance). The characterisation "non-whitespace characters are preserved in order" and strip\'s end condition are checked structurally on every correspondence case, not yet proved.',
    technique='Lean 4 proof (list recursion on the cleaning pipeline, decision table of check_response) + exhaustive flag-grid correspondence', design='§6 C18'),
+ 'C11': dict(
+   text='ItemGrader.__call__ / AbstractGrader.__call__ modelled as a state machine over the grader object (stored answers, inferring flag, log flag, debug log) with validation, text check and grading as parameters; proved by induction over ANY call history '
+        '(including calls that raise in validation, in the input check or in grading): the next call returns what a freshly constructed grader returns for the current expect value or the last successfully supplied one; '
+        'configured answers ignore expect; the debug log shown by a call mentions only that call; the log flag is always cleared. '
+        'Tie: call histories (short exhaustive sample + random longer) on String/Table/SingleList/Formula/Numerical/Matrix/Interval/LinearComparer graders, configured/unconfigured, debug on/off, vs the model instantiated with outcome tables measured on fresh graders and vs fresh instances; '
+        'snapshot checks of author config objects, evaluator scopes, class-level defaults, MathArray switch, numpy error state, other grader instances and the process-wide parser.',
+   note=PROOF_NOTE + ' The aliasing clauses (no mutation of author objects / process-wide settings / other instances) are snapshot-compared per case, not proved (value-semantics model). The theorems describe the code as repaired by the fix: commits F1-F3.',
+   technique='Lean 4 proof (refinement of a call state machine to "fresh grader", induction over histories) + history correspondence + snapshot monitor', design='§6 C11'),
 }
 NA_REASON = 'check not built yet in this round (planned: see DESIGN.md §6); not claimed until its model, theorems and correspondence exist'
 
